@@ -113,6 +113,19 @@ func c17stress(args []string) {
 				fmt.Fprintf(&src, "(run (progn (dotimes (i %d) (with-mutex-lock mu (send inst :bump)) (send inst :peek)) (channel-push fin %d)))\n", st.M, k)
 			}
 			fmt.Fprintf(&src, "(dotimes (i %d) (channel-pop fin))\n(setq xcnt (send inst :n))\n", st.N)
+		case "withslots":
+			// n routines, each inside ONE with-slots body over the same synchronized instance for all its m turns, pass a token round a
+			// ring of channels: a routine increments the slot only while it holds the token, so the accesses are ordered by the
+			// channel operations and no update can be lost (x = n m) - a slot variable read again sees what the others stored
+			fmt.Fprintf(&src, "(defflavor c17ws%d ((n 0)) () :gettable-instance-variables)\n(setq inst (make-instance 'c17ws%d)) (set-synchronized inst t) (setq fin (make-channel %d))\n", st.ID, st.ID, st.N)
+			for k := 0; k < st.N; k++ {
+				fmt.Fprintf(&src, "(setq tok%d (make-channel 1))\n", k)
+			}
+			for k := 0; k < st.N; k++ {
+				fmt.Fprintf(&src, "(run (progn (with-slots (n) inst (dotimes (i %d) (channel-pop tok%d) (setq n (+ n 1)) (channel-push tok%d t))) (channel-push fin %d)))\n",
+					st.M, k, (k+1)%st.N, k)
+			}
+			fmt.Fprintf(&src, "(channel-push tok0 t)\n(dotimes (i %d) (channel-pop fin))\n(setq xcnt (send inst :n))\n", st.N)
 		case "syncinst":
 			slots := make([]string, st.N)
 			for k := range slots {
@@ -236,7 +249,7 @@ func c17stress(args []string) {
 			if !o.OK() {
 				ev["st"] = "err:" + o.Class + ": " + o.Msg
 			}
-		case <-time.After(map[bool]time.Duration{true: 20 * time.Second, false: 120 * time.Second}[st.Kind == "syncmethod"]):
+		case <-time.After(map[bool]time.Duration{true: 20 * time.Second, false: 120 * time.Second}[st.Kind == "syncmethod" || st.Kind == "withslots"]):
 			ev["st"] = "hang"
 			out.Emit(ev)
 			out.Flush()
@@ -251,7 +264,7 @@ func c17stress(args []string) {
 				got = append(got, c17sPairs(h.Eval(s, fmt.Sprintf("got%d", c)).Val))
 			}
 			ev["got"] = got
-		case "syncmethod":
+		case "syncmethod", "withslots":
 			if f, ok := h.Eval(s, "xcnt").Val.(slip.Fixnum); ok {
 				ev["x"] = int(f)
 			}
